@@ -1,6 +1,7 @@
 package main
 
 import (
+	"slices"
 	"fmt"
 	"go/ast"
 	"go/token"
@@ -404,4 +405,85 @@ func ruleC06Order(p *Prog, r *Res) {
 		})
 	}, 2, "evaluates a tag")
 	r.Floor(rule, 2, n)
+}
+
+// ---- C06-e: a bit-level change of a tag's match set marks the stream uncertain ----
+
+func init() {
+	register("C06",
+		"C06-e (AST, typed): outside the evaluation idiom (Matches.Sub(Uncertain) followed by Set for the streams a tagging job found), every bit-level change of a tag's match set — X.Matches.Set(s) / X.Matches.Unset(s) — has a sibling statement X.Uncertain.Set(s) in the same block: inheritTagUncertainty carries a change of a (mark) tag to the tags that reference it only through that bit; without it dependants keep their old answer and report no uncertain streams.",
+		ruleC06MatchChange)
+}
+
+func ruleC06MatchChange(p *Prog, r *Res) {
+	const rule = "C06-e match-change-marks-uncertain"
+	r.Rule(rule + ": X.Matches.Set/Unset(s) outside tag evaluation is paired with X.Uncertain.Set(s)")
+	matches := p.Field("query", "TagDetails", "Matches")
+	unc := p.Field("query", "TagDetails", "Uncertain")
+	if matches == nil || unc == nil {
+		p.anchorFail("query.TagDetails.Matches / Uncertain")
+		return
+	}
+	n := 0
+	for _, f := range p.FnList {
+		if f.Short != "manager" {
+			continue
+		}
+		info := f.Pkg.TypesInfo
+		// bitCall returns (base expr text, arg text) for `base.<fld>.<method>(arg)`
+		bitCall := func(x ast.Node, fld *types.Var, methods ...string) (string, string, bool) {
+			es, ok := x.(*ast.ExprStmt)
+			if !ok {
+				return "", "", false
+			}
+			c, ok := es.X.(*ast.CallExpr)
+			if !ok || len(c.Args) != 1 {
+				return "", "", false
+			}
+			se, ok := c.Fun.(*ast.SelectorExpr)
+			if !ok || !slices.Contains(methods, se.Sel.Name) {
+				return "", "", false
+			}
+			inner, ok := ast.Unparen(se.X).(*ast.SelectorExpr)
+			if !ok || info.Uses[inner.Sel] != types.Object(fld) {
+				return "", "", false
+			}
+			return types.ExprString(inner.X), exprString(p.Fset, c.Args[0]), true
+		}
+		// evaluation idiom: base.Matches.Sub(<re-evaluated streams>) in this function, followed by Set for the streams found
+		evalBases := map[string]bool{}
+		inspectShallow(f.Body(), func(x ast.Node) bool {
+			if base, _, ok := bitCall(x, matches, "Sub"); ok {
+				evalBases[base] = true
+			}
+			return true
+		})
+		inspectShallow(f.Body(), func(x ast.Node) bool {
+			blk, ok := x.(*ast.BlockStmt)
+			if !ok {
+				return true
+			}
+			for _, st := range blk.List {
+				base, arg, ok := bitCall(st, matches, "Set", "Unset")
+				if !ok {
+					continue
+				}
+				n++
+				key := fmt.Sprintf("%s %s.Matches bit change (%s)", f.Key(), base, arg)
+				if evalBases[base] {
+					r.Exempt(rule, key, p.Pos(st), "tag evaluation: the uncertain streams were removed from Matches (Matches.Sub(Uncertain)) and are re-added from the job's result")
+					continue
+				}
+				paired := false
+				for _, st2 := range blk.List {
+					if b2, a2, ok := bitCall(st2, unc, "Set"); ok && b2 == base && a2 == arg {
+						paired = true
+					}
+				}
+				r.Check(paired, rule, key, p.Pos(st), "sibling "+base+".Uncertain.Set("+arg+") in the same block", "the match bit of stream "+arg+" changes but the stream is not marked uncertain: inheritTagUncertainty has nothing to propagate, tags referencing this tag keep a stale answer with UncertainCount 0")
+			}
+			return true
+		})
+	}
+	r.Floor(rule, 4, n)
 }
